@@ -33,10 +33,21 @@ pub fn main() {
     std::panic::set_hook(Box::new(|_| {}));
     let mut violations = 0;
     let mut executions = 0;
-    for ci in first..first + count {
+    // C14 under Miri: only the isolated task-set scenarios (whole simulations with many models and
+    // queries are too slow to interpret in the quick tier).
+    let comp_only = prop.id == "C14";
+    let mut done = 0;
+    for ci in first..first + count * 60 {
+        if done >= count {
+            break;
+        }
         let case_seed = mix(mix(seed, str_hash(prop.id)), ci);
         let mut rng = Rng::new(case_seed);
         let base = (prop.gen)(&mut rng, false);
+        if comp_only && base.comp.is_none() {
+            continue;
+        }
+        done += 1;
         // Under Miri only the first variant of differential properties is executed.
         let Some(case) = (prop.variants)(&base, false).into_iter().next() else { continue };
         let case = Arc::new(case);
